@@ -60,13 +60,21 @@ pub fn budget(prop: &str, tier: Tier) -> u64 {
 pub fn gen_case(prop: &str, tier: Tier, seed: u64) -> Case {
     match prop {
         "C01" => seqprops::gen_c01(tier, seed),
+        "C04" => seqprops::gen_c04(tier, seed),
+        "C05" => seqprops::gen_c05(tier, seed),
+        "C07" => seqprops::gen_c07(tier, seed),
+        "C08" => seqprops::gen_c08(tier, seed),
+        "C11" => seqprops::gen_c11(tier, seed),
+        "C12" => seqprops::gen_c12(tier, seed),
+        "C16" => seqprops::gen_c16(tier, seed),
+        "C18" => seqprops::gen_c18(tier, seed),
         _ => panic!("unknown property {prop}"),
     }
 }
 
 pub fn run_case(case: &Case, dir: PathBuf) -> Outcome {
     match case.prop.as_str() {
-        "C01" => seqprops::run_seq(case, dir),
+        "C01" | "C04" | "C05" | "C07" | "C08" | "C11" | "C12" | "C16" | "C18" => seqprops::run_seq(case, dir),
         p => panic!("unknown property {p}"),
     }
 }
